@@ -17,7 +17,7 @@ VERIF = os.path.dirname(os.path.dirname(os.path.abspath(__file__)))
 REPO = os.environ.get("VERIF_REPO", "/repo")
 
 
-def extract_item(repo, rel, sel, within=None, methods=None):
+def extract_item(repo, rel, sel, within=None, methods=None, with_attrs=False):
     p = os.path.join(repo, rel)
     if not os.path.exists(p):
         raise RuntimeError("lost anchor: %s missing" % rel)
@@ -37,7 +37,7 @@ def extract_item(repo, rel, sel, within=None, methods=None):
         raise RuntimeError("lost anchor: `%s` in %s: %d matches" % (sel, rel, len(found)))
     it = found[0]
     line = txt.count("\n", 0, it.start) + 1
-    return txt[it.start:it.end], line
+    return txt[(it.attr_start if with_attrs else it.start):it.end], line
 
 
 def extract_block(repo, rel, sel, frm, to, skip=0):
@@ -195,7 +195,7 @@ def run_kani_unit(name, workdir, tier, prop):
             elif e.get("macro_body"):
                 text, line = extract_macro_body(REPO, e["file"], e["macro_body"])
             else:
-                text, line = extract_item(REPO, e["file"], e["sel"], within=e.get("within"))
+                text, line = extract_item(REPO, e["file"], e["sel"], within=e.get("within"), with_attrs=bool(e.get("with_attrs")))
             for a, b in e.get("replace", []):
                 text = text.replace(a, b)
             if e.get("drop_attrs"):
